@@ -109,6 +109,11 @@ def _first_error(regs):
     return 0
 
 
+def segs_enc(segs, k, y, P, which):
+    """the default encoding of every segment, segment k replaced by the spelling y"""
+    return [y if j == k else P._enc(x, which, False) for j, x in enumerate(segs)]
+
+
 def _from_groups(groups, reqs, nf=False, na=False, cors=False, use=False, **cfg):
     """one server, one fresh table per group (the shape of the round-2 cases)"""
     tables, events = [], []
@@ -769,6 +774,28 @@ class C09(Property):
             self._decorate(rng, reqs, len(regs))
             c = rng.random()
             cases.append({"nf": c < 0.1, "na": 0.05 < c < 0.15, "regs": regs, "reqs": reqs})
+        # cases of kind "target": every request a raw request line in a random (legal or illegal) encoding
+        for _ in range(max(1, n // 12)):
+            regs, base = self._table(rng)
+            ms = sorted(set(m for m, _ in regs if m in ALL_METHODS)) or METHODS
+            reqs = []
+            for _ in range(rng.randint(4, 12)):
+                p = self._reqpath(rng, regs)
+                if not p.startswith("/"):
+                    continue
+                lower = rng.random() < 0.4
+                rate = rng.choice([0.0, 0.1, 0.3, 1.0])
+                segs = [self._enc(x, lambda i, b: b >= 0x80 or rng.random() < rate, lower) for x in p[1:].split("/")]
+                t = "/" + "/".join(segs)
+                r = rng.random()
+                if r < 0.1:
+                    t = t.replace("/", rng.choice(["%2F", "%2f"]), 1) if t.count("/") > 1 and False else t + rng.choice(["?", "?a=%zz", "?/x"])
+                elif r < 0.15:
+                    t += rng.choice(["%", "%4", "%zz", "%2e", "%2F", "/%2e%2e"])
+                reqs.append([rng.choice(ms + METHODS), t, "raw"])
+            if reqs:
+                c = rng.random()
+                cases.append({"kind": "target", "nf": c < 0.1, "na": 0.05 < c < 0.15, "regs": regs, "reqs": reqs})
         nserver = max(1, n // 3)
         for _ in range(nserver):
             cases.append(self._server_case(rng))
@@ -804,7 +831,82 @@ class C09(Property):
         ]
 
     def _fixed_families(self):
-        return self._heavy_cases() + self._spelling_cases() + self._cleaning_cases()
+        return self._heavy_cases() + self._spelling_cases() + self._cleaning_cases() + self._escape_cases()
+
+    # ---- request targets in non-default encodings (seed C09-12): cases of kind "target" - every request is a raw request
+    # line, the model derives URL.Path / URL.RawPath from the target itself and the response is judged against the path
+    # the MODEL decoded --------------------------------------------------------------------------------------------
+    UNRESERVED = set("abcdefghijklmnopqrstuvwxyzABCDEFGHIJKLMNOPQRSTUVWXYZ0123456789-._~")
+
+    def _enc(self, seg, which, lower):
+        """seg with the characters selected by which(i, code point) percent-encoded, byte by byte (those that cannot stand
+        raw on a request line always); an unselected non-ASCII character goes on the wire as its UTF-8 bytes"""
+        out = []
+        for i, ch in enumerate(seg):
+            o = ord(ch)
+            if which(i, o) or o <= 0x20 or o == 0x7f or ch in "?%#":
+                out.append("".join(("%%%02x" if lower else "%%%02X") % b for b in ch.encode("utf-8")))
+            else:
+                out.append(ch)
+        return "".join(out)
+
+    def _escape_variants(self, path):
+        """spellings of one path: default encoding; every single unreserved character escaped (upper / lower hex);
+        everything escaped; non-ASCII canonical, lower-case hex and raw bytes; '.' of dot segments as %2e / %2E; '/' as %2F / %2f"""
+        segs = path[1:].split("/")
+        vs = []
+        join = lambda ss: "/" + "/".join(ss)
+        non_ascii = lambda i, b: b >= 0x80
+        vs.append(join([self._enc(x, non_ascii, False) for x in segs]))       # Go's default encoding
+        vs.append(join([self._enc(x, non_ascii, True) for x in segs]))        # lower-case hex
+        vs.append(join([self._enc(x, lambda i, b: False, False) for x in segs]))   # raw UTF-8 bytes on the request line
+        vs.append(join([self._enc(x, lambda i, b: True, False) for x in segs]))
+        vs.append(join([self._enc(x, lambda i, b: True, True) for x in segs]))
+        for k, x in enumerate(segs):
+            for i in range(min(len(x), 6)):
+                for lower in (False, True):
+                    y = self._enc(x, lambda j, b, i=i: j == i or b >= 0x80, lower)
+                    vs.append(join(segs_enc(segs, k, y, self, non_ascii)))
+        for k in range(1, len(segs)):       # one separator as an encoded slash
+            for sl in ("%2F", "%2f"):
+                enc = [self._enc(x, non_ascii, False) for x in segs]
+                vs.append("/" + "/".join(enc[:k]) + sl + "/".join(enc[k:]))
+        seen, out = set(), []
+        for v in vs:
+            if v not in seen:
+                seen.add(v)
+                out.append(v)
+        return out
+
+    def _escape_cases(self):
+        t = [["GET", "/files/readme"], ["GET", "/files/:name"], ["GET", "/docs/café"], ["POST", "/docs/:d"], ["GET", "/a/:x/b"], ["GET", "/b"],
+             ["PUT", "/a/b"], ["DELETE", "/files/:name/raw"], ["GET", "/~u/a-b_c.d"], ["GET", "/日本/:名"]]
+        paths = ["/files/readme", "/docs/café", "/a/../b", "/a/./b", "/files/x/raw", "/a/1/b", "/~u/a-b_c.d", "/日本/語", "/files/a b", "/files/50%",
+                 "/files/..", "/a/.../b", "/files/re/adme", "/b/", "/files//readme"]
+        targets = []
+        for p in paths:
+            targets += self._escape_variants(p)
+        targets += ["/files/%2e", "/files/%2E/readme", "/a/%2e%2e/b", "/a/%2E%2e/b", "/a/.%2e/b", "/a/%2e./b", "/a/%2e%2e%2fb", "/%2e%2e/b", "/a/x/%2e%2e/%2E%2E/b",
+                    "/files/readme?%72", "/files/readme%3F", "/files/readme%3f?", "/files/%zz", "/files/%7", "/files/%", "/files/%%", "/files/%G0", "/files/%0g",
+                    "/files/%00", "/files/%7F", "/files/+", "/files/%2B", "/files/a+b", "/files/!*'()", "/files/%21%2A",
+                    "/files/[x]", "/files/%5Bx%5D", "/files/{x}", "/files/a|b", "/files/^", "/files/`", "/files/a\\b", "/files/%5C", "/files/\"q\"", "/files/<x>",
+                    "/files/$&,;:=@", "/files/%24%26%2C%3B%3A%3D%40", "/docs/cafe%CC%81", "/docs/caf%C3%A9/", "/docs/caf%c3%A9"]
+        # (targets that decode to invalid UTF-8 are left out: the executor reports paths as JSON strings)
+        seen, uniq = set(), []
+        for x in targets:
+            if x not in seen:
+                seen.add(x)
+                uniq.append(x)
+        cases = []
+        for i in range(0, len(uniq), 60):
+            cases.append({"kind": "target", "nf": False, "na": False, "regs": t,
+                          "reqs": [[m, x, "raw"] for x in uniq[i:i + 60] for m in (("GET", "POST") if (len(x) % 3) else ("GET",))]})
+        # the raw-target family (f) once more, judged from the target itself (origin-form targets only)
+        for c in self._cleaning_cases():
+            if c["reqs"] and c["reqs"][0][2] == "raw":
+                reqs = [rq for rq in c["reqs"] if rq[1].startswith("/") and " " not in rq[1]]
+                cases.append(dict(c, kind="target", reqs=reqs))
+        return cases
 
     # ---- deterministic families for the other seeded classes (each seed of seeded/C09-* is caught by one of them,
     # whatever VERIF_SEED is) -------------------------------------------------------------------------------------
@@ -1103,9 +1205,20 @@ class C09(Property):
             ["(%s, %s, %s)" % (cstr(m), cstr(p), REGERR.get(int(e), "RegOther")) for m, p, e in b]) for b in obs.get("bound") or [None] * len(case["servers"])])
         return "CServer (mkSCase %s %s %s %s %s %s %s %s %s)" % (clist(tables), cfgs, clist(evs), starts, routes, printed, after, clist(reqs), bound)
 
+    def _target_case_term(self, case, obs):
+        regs = clist(["mkReg %s %s %s" % (cstr(m), cstr(p), cz(i)) for i, (m, p) in enumerate(case["regs"])])
+        regobs = clist([REGERR.get(e, "RegOther") for e in obs["regerr"]])
+        reqs = []
+        for rq, r in zip(case["reqs"], obs["res"]):
+            go = "None" if r["k"] == "badreq" else "(Some (%s, %s))" % (cstr(r["path"]), cstr(r.get("rawpath", "")))
+            reqs.append("mkTReq %s %s %s %s" % (cstr(rq[0]), cstr(rq[1]), go, "RNotFound" if r["k"] == "badreq" else self._resp(r)))
+        return "CTarget (mkTCase %s %s %s %s %s)" % (cbool(case["nf"]), cbool(case["na"]), regs, regobs, clist(reqs))
+
     def coq_case(self, case, obs):
         if case.get("kind") == "server":
             return self._server_case_term(case, obs)
+        if case.get("kind") == "target":
+            return self._target_case_term(case, obs)
         regs = clist(["mkReg %s %s %s" % (cstr(m), cstr(p), cz(i)) for i, (m, p) in enumerate(case["regs"])])
         regobs = clist([REGERR.get(e, "RegOther") for e in obs["regerr"]])
         pclean = clist([cstr(s) for s in obs["pclean"]])
